@@ -137,15 +137,22 @@ impl crate::graph::GraphRunner for MTGraph {
             threads.push(th);
         }
         debug!("Joining threads");
+        let mut first_err = None;
         for (n, th) in threads.into_iter().rev().enumerate() {
             let name = th.thread().name().unwrap().to_string();
             debug!("Waiting for {}", name);
             #[cfg(rustradio_verif)]
             crate::verif::join_point(th.thread().id());
-            let j = th
-                .join()
-                .expect("joining thread")
-                .expect("block exit status");
+            // A failed block is reported as the error of run(), once all
+            // threads are done. Its exit closed its streams, which shuts down
+            // the other blocks.
+            let j = match th.join().expect("joining thread") {
+                Ok(j) => j,
+                Err(e) => {
+                    first_err.get_or_insert(e);
+                    BlockStats::default()
+                }
+            };
             debug!("Thread {} finished with {:?}", name, j);
             self.block_stats.insert((n, name), j);
         }
@@ -155,6 +162,9 @@ impl crate::graph::GraphRunner for MTGraph {
             if !line.is_empty() {
                 info!("{}", line);
             }
+        }
+        if let Some(e) = first_err {
+            return Err(e);
         }
         Ok(())
     }
